@@ -723,6 +723,17 @@ func globalRoot(addr ssa.Value, depth int) *ssa.Global {
 		}
 	case *ssa.Lookup:
 		return globalRoot(x.X, depth+1)
+	case *ssa.Slice:
+		// a sub-slice shares the backing array
+		return globalRoot(x.X, depth+1)
+	case *ssa.Extract:
+		// v, ok := table[k]: v is the table's own slice / map value
+		if lk, ok := x.Tuple.(*ssa.Lookup); ok && x.Index == 0 {
+			switch x.Type().Underlying().(type) {
+			case *types.Slice, *types.Map, *types.Pointer:
+				return globalRoot(lk, depth+1)
+			}
+		}
 	}
 	return nil
 }
